@@ -26,6 +26,7 @@ type ReplayFile struct {
 	Cfg       map[string]any `json:"cfg,omitempty"`
 	Log       []string       `json:"log,omitempty"`
 	Minimised bool           `json:"minimised"`
+	Flaky     bool           `json:"flaky,omitempty"` // the code under test is itself nondeterministic: reproduces within a few executions of the trace, not every time
 	Crash     bool           `json:"crash,omitempty"` // the run killed the process (fatal runtime error): replay = re-execute the seed
 	RawLen    int            `json:"raw_trace_len,omitempty"`
 	RepoRev   string         `json:"repo_rev,omitempty"`
@@ -286,7 +287,23 @@ func replay(t *testing.T, engine, prop string, fn PropFn) {
 		r.KeepLog = true
 		Exec(t, r, fn)
 	} else {
-		r = replayRun(t, rf, rf.Trace, fn, true)
+		n := 1
+		if rf.Flaky {
+			n = 20
+		}
+		var any *Run
+		for a := 0; a < n; a++ {
+			r = replayRun(t, rf, rf.Trace, fn, true)
+			if r.Viol != nil {
+				any = r
+				if rf.Violation == nil || r.Viol.Oracle == rf.Violation.Oracle {
+					break
+				}
+			}
+		}
+		if r.Viol == nil && any != nil {
+			r = any
+		}
 	}
 	if os.Getenv("VERIF_SHOWLOG") != "" {
 		for _, l := range r.Log {
